@@ -385,7 +385,7 @@ theorem sendChunk_spec (cfg : Cfg) (script : List Srv) (now i : Nat) (ch : Chunk
     acc.ctr.rerr + ch.dropped.length ≤ r.ctr.rerr ∧
     ∃ l, r.log = acc.log ++ l ∧ l.length ≤ maxTries ∧
       ∀ a ∈ l, a.dest = ch.dest ∧ a.events = ch.sub ∧ a.bodyLen = bodyLen ch ∧ a.time = now ∧
-        a.chunk = i ∧ ch.sub ≠ [] := by
+        a.chunk = i ∧ ch.sub ≠ [] ∧ a.path = requestPath (cfg.esc ch.dest.dataset) := by
   simp only [sendChunk]
   by_cases he : ch.sub.isEmpty = true
   · rw [if_pos he]
@@ -399,12 +399,12 @@ theorem sendChunk_spec (cfg : Cfg) (script : List Srv) (now i : Nat) (ch : Chunk
         by simp [batchFailure, countDropped], [], by simp [countDropped], by simp, by simp⟩
     · rw [if_neg hb]
       generalize hacc0 : countDropped ch.dropped.length acc = acc0
-      have hs := tryLoop_spec script now (fun p => ⟨ch.dest, ch.sub, bodyLen ch, now, i, p⟩) ch.sub.length
+      have hs := tryLoop_spec script now (mkAttempt cfg now i ch) ch.sub.length
         maxTries 0 .none acc0
       obtain ⟨⟨q1, q2, q3⟩, ⟨l, e1, e2, e3⟩, e4⟩ := hs
       have hnn := e4 (Or.inl (by decide))
       obtain ⟨f1, f2, f3⟩ := finish_spec _ ch.sub
-        (tryLoop script now (fun p => ⟨ch.dest, ch.sub, bodyLen ch, now, i, p⟩) ch.sub.length maxTries 0 .none acc0).2.ctr hnn
+        (tryLoop script now (mkAttempt cfg now i ch) ch.sub.length maxTries 0 .none acc0).2.ctr hnn
       have a1 : acc0.ctr.ups = acc.ctr.ups := by subst hacc0; rfl
       have a2 : acc0.ctr.downs = acc.ctr.downs + ch.dropped.length := by subst hacc0; rfl
       have a3 : acc0.ctr.rerr = acc.ctr.rerr + ch.dropped.length := by subst hacc0; rfl
@@ -416,7 +416,7 @@ theorem sendChunk_spec (cfg : Cfg) (script : List Srv) (now i : Nat) (ch : Chunk
       · simp only []; rw [e1, a4]
       · intro a ha
         obtain ⟨p, rfl⟩ := e3 a ha
-        exact ⟨rfl, rfl, rfl, rfl, rfl, hne⟩
+        exact ⟨rfl, rfl, rfl, rfl, rfl, hne, rfl⟩
 
 theorem sendChunks_spec (cfg : Cfg) (script : List Srv) (now : Nat) :
     ∀ (cs : List Chunk) (i : Nat) (acc : Acc),
@@ -426,7 +426,7 @@ theorem sendChunks_spec (cfg : Cfg) (script : List Srv) (now : Nat) :
       acc.ctr.rerr + (cs.flatMap (·.dropped)).length ≤ r.ctr.rerr ∧
       ∃ l, r.log = acc.log ++ l ∧
         (∀ a ∈ l, i ≤ a.chunk ∧ a.time = now ∧ ∃ ch ∈ cs, a.dest = ch.dest ∧ a.events = ch.sub ∧
-          a.bodyLen = bodyLen ch ∧ ch.sub ≠ []) ∧
+          a.bodyLen = bodyLen ch ∧ ch.sub ≠ [] ∧ a.path = requestPath (cfg.esc ch.dest.dataset)) ∧
         ∀ j, (l.filter (fun a => a.chunk = j)).length ≤ maxTries := by
   intro cs
   induction cs with
@@ -442,8 +442,8 @@ theorem sendChunks_spec (cfg : Cfg) (script : List Srv) (now : Nat) :
     · rw [r4, s4]; simp
     · intro a ha
       rcases List.mem_append.mp ha with ha | ha
-      · obtain ⟨d1, d2, d3, d4, d5, d6⟩ := s6 a ha
-        exact ⟨by omega, d4, ch, List.mem_cons_self, d1, d2, d3, d6⟩
+      · obtain ⟨d1, d2, d3, d4, d5, d6, d7⟩ := s6 a ha
+        exact ⟨by omega, d4, ch, List.mem_cons_self, d1, d2, d3, d6, d7⟩
       · obtain ⟨d1, d2, c, hc, d3⟩ := r5 a ha
         exact ⟨by omega, d2, c, List.mem_cons_of_mem _ hc, d3⟩
     · intro j
@@ -466,7 +466,7 @@ theorem sendBatch_spec (cfg : Cfg) (script : List Srv) (now : Nat) (evs : List E
     r.ctr.ups = 0 ∧ r.ctr.downs = evs.length ∧
     (evs.filter (fun e => !fits maxE e)).length ≤ r.ctr.rerr ∧
     (∀ a ∈ r.log, a.time = now ∧ ∃ ch ∈ (split evs).1, a.dest = ch.dest ∧ a.events = ch.sub ∧
-        a.bodyLen = bodyLen ch ∧ ch.sub ≠ []) ∧
+        a.bodyLen = bodyLen ch ∧ ch.sub ≠ [] ∧ a.path = requestPath (cfg.esc ch.dest.dataset)) ∧
     ∀ j, (r.log.filter (fun a => a.chunk = j)).length ≤ maxTries := by
   obtain ⟨h1, h2, h3, l, h4, h5, h6⟩ := sendChunks_spec cfg script now (split evs).1 0 {}
   have hc := split_complete evs
